@@ -15,6 +15,10 @@ Streams
 * tolerance: loss (logits of several magnitude classes, float32 and float64; an independent
   double-precision log-softmax is handed to the model as exact rationals; results compared with a
   relative tolerance of 1e-5 (float32) / 1e-9 (float64));
+* ragged / cost-order stream (seed C03-g1): short references next to a full-length one, hypotheses longer than
+  the short references, arbitrary values stored past each reference's end, cost triples cycled over every order
+  class incl. zero costs (zero costs: correspondence with the model is enforced; the deviation from the oracle is
+  the known finding `C03.targets.zero_cost_minimal_positions`, reported only when implementation = model);
 * malformed: shape errors (must raise) and the excluded point — an empty counted hypothesis
   together with exclude_last — which is run but NEVER judged; zero-size batches (N = 0, outside the
   property's N >= 1) and non-long reference tensors (outside the documented "long tensor") may be
@@ -29,6 +33,8 @@ from common.framework import PropertyCheck, frac_str, parse_frac
 import c03_call as cc
 
 COSTS = ["1/4", "1/2", "1", "3/2", "2", "3", "4"]
+# the wider grid of the cost-ORDER stream: every value is k/8, so float32 DP entries stay exact
+COST_GRID = ["0", "1/8", "1/4", "1/2", "3/4", "1", "3/2", "2", "3", "4", "6"]
 PADS = [-100, -2, 77, 2 ** 40 + 3]
 TOL = {"float32": 1e-5, "float64": 1e-9}
 RESERVED = set(PADS) | {-1}
@@ -50,6 +56,98 @@ def cut_len(toks, eos, include_eos):
     if include_eos and l != len(toks):
         l += 1
     return l
+
+
+def _cmp(a, b):
+    return "<" if a < b else ">" if a > b else "="
+
+
+def cost_order(costs):
+    """The ORDER class of a cost triple (ins, del, sub): how sub compares with ins, with del and with
+    ins + del (a substitution dearer than deleting + inserting is never used), how ins compares with
+    del, which costs are zero and whether any is fractional."""
+    i, d, s = (Fraction(c) for c in costs)
+    return (_cmp(s, i), _cmp(s, d), _cmp(s, i + d), _cmp(i, d), (i == 0, d == 0, s == 0),
+            any(c.denominator != 1 for c in (i, d, s)))
+
+
+def cost_classes(grid, zero):
+    """order class -> the triples of grid^3 in it (with / without triples that have a zero cost)."""
+    out = {}
+    for t in itertools.product(grid, repeat=3):
+        if ("0" in t) != zero:
+            continue
+        out.setdefault(cost_order(t), []).append(t)
+    return [out[k] for k in sorted(out, key=repr)]
+
+
+def has_zero_cost(case):
+    return any(Fraction(case[k]) == 0 for k in ("ins", "del", "sub"))
+
+
+def late_reentry(r, h, costs):
+    """Is there a prefix of h with MORE tokens than the reference r whose best reachable distance is
+    still attained strictly inside r (so that it has a target although the hypothesis already overran
+    the reference)? Plain sequential DP in exact arithmetic; only used to steer the generator."""
+    ins, dl, sub = (Fraction(c) for c in costs)
+    row = [j * dl for j in range(len(r) + 1)]
+    for k, t in enumerate(h, 1):
+        new = [row[0] + ins]
+        for j in range(1, len(r) + 1):
+            new.append(min(row[j] + ins, row[j - 1] + (0 if r[j - 1] == t else sub), new[j - 1] + dl))
+        row = new
+        if k > len(r) and min(row[:-1], default=None) == min(row):
+            return True
+    return False
+
+
+def ragged_cols(rng, N, R, H, alpha, eos, other, ie, costs=("1", "1", "1")):
+    """A ragged batch: one reference fills the reference dimension, the others are short (cut length
+    0..R-2) and are followed by the eos and arbitrary stored values - tokens of the same column's
+    hypothesis, reference tokens, the eos, a value that occurs nowhere else. The hypotheses carry more
+    tokens than the short references can absorb, in the shapes that make an early reference position
+    optimal again late in the hypothesis: mismatching tokens followed by the reference re-read from its
+    start, every reference token stuttered, the reference followed by extra tokens, or random."""
+    full = rng.randrange(N)
+    refs, hyps = [], []
+    for n in range(N):
+        r, h = _ragged_pair(rng, R if n == full else rng.randint(0, max(0, R - 2)), R, H, alpha, eos, other, ie)
+        if n != full and rng.random() < 0.7:
+            # steer: a prefix that overran the short reference and still has a target
+            for _ in range(12):
+                cr, ch = r[:cut_len(r, eos, ie)], h[:cut_len(h, eos, ie)]
+                if late_reentry(cr, ch, costs):
+                    break
+                r, h = _ragged_pair(rng, rng.randint(1, max(1, R - 2)), R, H, alpha, eos, other, ie)
+        refs.append(r)
+        hyps.append(h)
+    return refs, hyps
+
+
+def _ragged_pair(rng, L, R, H, alpha, eos, other, ie):
+    r = [rng.choice(alpha) for _ in range(L)]
+    shape = rng.choice(["reread", "reread", "stutter", "overrun", "random"])
+    miss = [a for a in alpha if a not in r] + [other]
+    if shape == "reread":
+        m = rng.randint(1, max(1, H - 1))
+        x = rng.choice(miss)
+        h = [x if rng.random() < 0.8 else rng.choice(miss) for _ in range(m)]
+        h += r[:rng.randint(0, len(r))] + ([eos] if ie and rng.random() < 0.5 else [])
+    elif shape == "stutter":
+        h = [t for t in r for _ in range(rng.choice([2, 2, 3]))] or [rng.choice(alpha)]
+    elif shape == "overrun":
+        h = r + [rng.choice(alpha + [other]) for _ in range(rng.randint(1, H))]
+    else:
+        h = [rng.choice(alpha + [other]) for _ in range(rng.randint(1, H))]
+    h = h[:H]
+    if len(h) < H:
+        h.append(eos)
+        h += [rng.choice(alpha + [eos, other]) for _ in range(H - len(h))]
+    if L < R:
+        r.append(eos)
+        pool = rng.choice([h, [t for t in h if t != eos] or h, alpha + [eos, other], r, [eos]])
+        r += [rng.choice(pool) for _ in range(R - len(r))]
+    return r, h
 
 
 def gen_col(rng, L, alphabet, eos, dup_bias, junk=-1):
@@ -92,7 +190,13 @@ class C03(PropertyCheck):
     rule = ("padded batches N<=4, R,H<=6 (thorough <=9), alphabets of 1-4 symbols so that references repeat "
             "tokens (small, negative, > 2^31, > 2^53 and mixed token values), eos in {unset, in data at every "
             "position incl. 0, absent, negative}, garbage after eos repeating valid tokens, every cost triple of "
-            "{1/4,1/2,1,3/2,2,3,4}^3 (float or int arguments), include_eos x exclude_last x batch_first x warn, "
+            "{1/4,1/2,1,3/2,2,3,4}^3 (float or int arguments) plus triples of {0,1/8,...,6}^3 cycled over every ORDER "
+            "class (sub vs ins, sub vs del, sub vs ins+del, ins vs del, fractional; a quarter of them with zero "
+            "costs, judged against the known finding C03.targets.zero_cost_minimal_positions), ragged batches "
+            "(one reference fills the reference dimension R<=6/9, the others are short and followed by eos + "
+            "stored values equal to hypothesis/reference tokens; hypotheses up to R+2 long that overrun the "
+            "short references: re-read, stutter, overrun shapes, steered towards prefixes longer than the "
+            "reference that still have a target), include_eos x exclude_last x batch_first x warn, "
             "functional and module entry points x call styles {all keywords, only non-defaults, mixed, all "
             "positional} (documented defaults and parameter order are written in the harness), memory layouts "
             "{contiguous, transposed storage, strided slice of a wider buffer, expanded} per tensor, hypothesis "
@@ -190,6 +294,29 @@ class C03(PropertyCheck):
             c["exclude_last"] = False
         return c
 
+    def _ragged_targets(self, rng, i, maxlen, cells, costs):
+        ie, ex, bf = cells[i % 8]
+        N = rng.choice([2, 2, 3, 4])
+        R = rng.randint(3, maxlen)
+        H = rng.randint(2, maxlen + 2)
+        alphabet = pick_alphabet(rng, rng.choice([2, 3, 4]), rng.choice(["small", "small", "negative", "big", "byte"]))
+        eos = alphabet[0]
+        free = [x for x in (eos + 11, eos + 12, eos + 13, eos + 14, eos + 15, eos + 16)
+                if x not in RESERVED and x not in alphabet]
+        alpha = alphabet[1:] or [free.pop()]
+        other = free[0]
+        refs, hyps = ragged_cols(rng, N, R, H, alpha, eos, other, ie, costs)
+        if ex:
+            for h in hyps:
+                if cut_len(h, eos, ie) == 0:
+                    h[0] = alpha[0]
+        used = {t for col in refs + hyps for t in col} | {eos}
+        c = self._targets_case(rng, refs, hyps, eos, ie, ex, bf, costs,
+                               rng.choice([p for p in PADS if p not in used]),
+                               "functional" if i % 3 else "module")
+        c["stream"] = "ragged"
+        return c
+
     def cases(self, rng, tier):
         scale = {"quick": 1, "thorough": 8, "search": 12}[tier]
         maxlen = 6 if tier == "quick" else 9
@@ -203,6 +330,19 @@ class C03(PropertyCheck):
             t = triples[ti % len(triples)]
             ti += 1
             return t
+
+        # cost triples by ORDER class (sub vs ins / del / ins + del, ins vs del, fractional), positive
+        # and with zero costs, cycled so that every class is reached in every run
+        pos_classes = cost_classes(COST_GRID, zero=False)
+        zero_classes = cost_classes(COST_GRID, zero=True)
+        rng.shuffle(pos_classes)
+        rng.shuffle(zero_classes)
+        oi = [0, 0]
+
+        def order_costs(zero=False):
+            cl = zero_classes if zero else pos_classes
+            oi[zero] += 1
+            return rng.choice(cl[oi[zero] % len(cl)])
 
         # hand-written edges first -------------------------------------------------
         yield self._targets_case(rng, [[1, 2, 2, 3, 0, 2, 2]], [[2, 1, 2, 0, 5]], 0, True, False, False,
@@ -242,6 +382,16 @@ class C03(PropertyCheck):
             costs = next_costs() if i % 5 else (lambda c: (c, c, c))(rng.choice(COSTS))
             yield self._decorate(rng, self._random_targets(rng, i, maxlen, cells, costs))
 
+        # ragged batches: short references next to one that fills the reference dimension, hypotheses
+        # longer than the short references, arbitrary values stored past each reference's end, every
+        # ORDER class of the cost triple; every fourth case has a zero cost
+        for i in range(280 * scale):
+            c = self._ragged_targets(rng, i, maxlen, cells, order_costs(zero=(i % 4 == 3)))
+            yield self._decorate(rng, c, plain=0.4)
+        # the same order classes on the ordinary random batches
+        for i in range(120 * scale):
+            yield self._decorate(rng, self._random_targets(rng, i, maxlen, cells, order_costs(zero=(i % 4 == 3))))
+
         # documented defaults left out of the call -----------------------------------
         for i in range(160 * scale):
             c = self._random_targets(rng, i, maxlen, cells, next_costs(), defaults=True)
@@ -270,6 +420,9 @@ class C03(PropertyCheck):
         # loss (tolerance stream) ---------------------------------------------------
         for i in range(240 * scale):
             yield self._random_loss(rng, i, maxlen, cells, next_costs() if i % 4 else ("1", "1", "1"))
+        # ragged batches / cost order classes (positive costs) for the loss
+        for i in range(60 * scale):
+            yield self._random_loss(rng, i, maxlen, cells, order_costs(), ragged=True)
 
         # loss with a target that is no class index (audit): cross_entropy raises IndexError ("Target ... is
         # out of bounds"); the model must raise the same (C03_loss_rejects_class) instead of reading the
@@ -309,12 +462,14 @@ class C03(PropertyCheck):
             c["kind"] = "excluded"
             yield c
 
-    def _random_loss(self, rng, i, maxlen, cells, costs):
+    def _random_loss(self, rng, i, maxlen, cells, costs, ragged=False):
         ie, _, bf = cells[i % 8]
         N = rng.choice([1, 2, 3, 4])
         R = rng.choice(range(1, maxlen + 1))
         H = rng.choice(range(1, maxlen + 1))
         V = rng.choice([2, 3, 4, 5, 6])
+        if ragged:
+            N, R, H, V = rng.choice([2, 3, 4]), rng.randint(3, maxlen), rng.randint(2, maxlen + 2), rng.choice([3, 4, 5])
         alphabet = list(range(V))
         if V >= 4 and rng.random() < 0.4:
             alphabet = rng.sample(alphabet, V - 2)  # classes that never occur in the data
@@ -325,6 +480,12 @@ class C03(PropertyCheck):
         junk = -1 if eos != -1 else -7
         refs = [gen_col(rng, R, alphabet, eos, True, junk) for _ in range(N)]
         hyps = [gen_col(rng, H, alphabet, eos, False, junk) for _ in range(N)]
+        if ragged:
+            eos = alphabet[0]
+            junk = -1
+            refs, hyps = ragged_cols(rng, N, R, H, [a for a in alphabet if a != eos], eos, junk, ie, costs)
+            # what is stored past a reference's end is never a target, but keep it inside the documented
+            # values of a reference tensor: class indices or the junk value the plain loss stream uses
         for n in range(N):
             if cut_len(hyps[n], eos, ie) == 0:
                 hyps[n][0] = next(a for a in alphabet + [V - 1, 0] if a != eos)
@@ -341,6 +502,8 @@ class C03(PropertyCheck):
              "V": V, "lseed": rng.randrange(1 << 30), "weight": weight,
              "ignore_index": rng.choice([x for x in (-2, -100, -1, V, 77) if x not in used or x < 0 and x != eos]),
              "entry": "functional" if i % 2 else "module"}
+        if ragged:
+            c["stream"] = "ragged"
         if rng.random() < 0.8:
             c["call"] = rng.choice(cc.STYLES)
             c["cost_type"] = rng.choice(["float", "float", "int"])
@@ -596,7 +759,8 @@ class C03(PropertyCheck):
         if case["kind"] == "targets":
             if "error" in model:
                 raise AssertionError(f"the model refuses an in-domain batch: {model['error']}")
-            self._check_model_vs_oracle(case, model)
+            if not has_zero_cost(case):  # C03_model_targets asks for strictly positive costs
+                self._check_model_vs_oracle(case, model)
             if "error" in impl:
                 if self._not_long(case):
                     return []
@@ -760,9 +924,13 @@ class C03(PropertyCheck):
                         continue
                     want = set(model["oracle"][n][k])
                     if set(got) != want:
+                        sig = "C03.targets.set_mismatch"
+                        if has_zero_cost(case) and sorted(got) == sorted(self._strip(model["rows"][k][n], pad)[0]):
+                            # the documented algorithm (tokens after the minimal positions of the DP column) run
+                            # with a zero cost: C03_targets needs strictly positive costs, counterexample proved
+                            sig = "C03.targets.zero_cost_minimal_positions"
                         fails.append((f"column {n} prefix {k}: listed {sorted(set(got))} but the tokens that keep "
-                                      f"the best reachable distance are {sorted(want)}",
-                                      "C03.targets.set_mismatch"))
+                                      f"the best reachable distance are {sorted(want)}", sig))
             verdict = model.get("verdict")
             if verdict is not None:
                 # the authority: Lean's rowCheck (C03_check_sound_complete); python only words the message
@@ -865,6 +1033,14 @@ class C03(PropertyCheck):
                            ("absent" if all(eos not in r for r in case["refs"]) else "present")))
         if case["ins"] == case["del"] == case["sub"]:
             t.append("uniform_cost_shortcut")
+        t.append(f"stream={case.get('stream', 'plain')}")
+        co = cost_order((case["ins"], case["del"], case["sub"]))
+        t += [f"cost_order=sub{co[0]}ins", f"cost_order=sub{co[1]}del", f"cost_order=sub{co[2]}ins+del",
+              f"cost_order=ins{co[3]}del"]
+        if any(co[4]):
+            t.append("zero_cost=" + "".join(n for n, z in zip(("ins", "del", "sub"), co[4]) if z))
+        if co[5]:
+            t.append("fractional_cost")
         if kind == "zero_batch":
             return t + ["N=0", "zero_batch=" + ("rejected" if "error" in impl else "accepted")]
         N, R, H = self._dims(case)
@@ -889,10 +1065,21 @@ class C03(PropertyCheck):
             t.append("prefixes_past_end")
         if len({len(h) for _, h in cuts}) > 1:
             t.append("ragged_hypothesis_lengths")
+        if len({len(r) for r, _ in cuts}) > 1:
+            t.append("ragged_reference_lengths")
+        if any(len(r) + 2 <= R and len(h) > len(r) + 1 for r, h in cuts):
+            t.append("hypothesis_longer_than_short_reference")
+        if any(set(full[len(r):]) & set(h) for (r, h), full in zip(cuts, case["refs"])):
+            t.append("hypothesis_token_stored_past_reference_end")
         if kind in ("targets", "excluded") and isinstance(impl, dict) and "out" in impl and len(impl["shape"]) == 3:
             t.append(f"padding={case['padding']}")
             if any(len(self._strip(row, case["padding"])[0]) >= 2 for rows in impl["out"] for row in rows):
                 t.append("prefix_with_several_targets")
+            rows = self._rows_kn(case, impl["out"], len(impl["out"]) if not case["batch_first"]
+                                 else (len(impl["out"][0]) if impl["out"] else 0), N)
+            if rows and any(self._strip(rows[k][n], case["padding"])[0]
+                            for n, (r, h) in enumerate(cuts) for k in range(len(r) + 1, min(len(h) + 1, len(rows)))):
+                t.append("target_at_prefix_longer_than_reference")
         if kind == "loss":
             if case.get("oob"):
                 t.append("target_outside_class_range=" + ("negative" if case["oob"][1] < 0 else "at_or_above_V"))
